@@ -110,8 +110,8 @@ struct WebSocketFrame
       frame.maskKey[3] = data[pos++];
     }
 
-    // Payload
-    if (data.size() < pos + payloadLen)
+    // Payload (pos <= data.size() here; pos + payloadLen can wrap for a 64-bit length)
+    if (payloadLen > data.size() - pos)
     {
       return std::nullopt; // incomplete
     }
